@@ -527,7 +527,49 @@ pub fn directed_case(i: usize) -> Case {
     }
 }
 
+/// One-off replay through the whole compiler (`vharness c17x probe`): a UFO with `space` (empty),
+/// `nbspace` (component of `space`) and `A` (triangle with xMin 50); prints head/hhea of the built font.
+fn probe_empty_composite() {
+    use write_fonts::read::{FontRef, TableProvider};
+    let dir = crate::e2e::build::tmpdir("c17probe");
+    let ufo = dir.path().join("P.ufo");
+    let gl = ufo.join("glyphs");
+    std::fs::create_dir_all(&gl).unwrap();
+    let head = "<?xml version=\"1.0\" encoding=\"UTF-8\"?>\n<!DOCTYPE plist PUBLIC \"-//Apple//DTD PLIST 1.0//EN\" \"http://www.apple.com/DTDs/PropertyList-1.0.dtd\">\n<plist version=\"1.0\">\n";
+    std::fs::write(ufo.join("metainfo.plist"), format!("{head}<dict><key>creator</key><string>verif</string><key>formatVersion</key><integer>3</integer></dict></plist>")).unwrap();
+    std::fs::write(ufo.join("fontinfo.plist"), format!("{head}<dict><key>familyName</key><string>Probe</string><key>styleName</key><string>Regular</string><key>unitsPerEm</key><integer>1000</integer><key>ascender</key><integer>800</integer><key>descender</key><integer>-200</integer></dict></plist>")).unwrap();
+    std::fs::write(ufo.join("layercontents.plist"), format!("{head}<array><array><string>public.default</string><string>glyphs</string></array></array></plist>")).unwrap();
+    std::fs::write(gl.join("contents.plist"), format!("{head}<dict><key>A</key><string>A_.glif</string><key>space</key><string>space.glif</string><key>nbspace</key><string>nbspace.glif</string></dict></plist>")).unwrap();
+    std::fs::write(gl.join("A_.glif"), "<?xml version=\"1.0\" encoding=\"UTF-8\"?>\n<glyph name=\"A\" format=\"2\"><advance width=\"600\"/><unicode hex=\"0041\"/><outline><contour><point x=\"50\" y=\"10\" type=\"line\"/><point x=\"150\" y=\"10\" type=\"line\"/><point x=\"50\" y=\"110\" type=\"line\"/></contour></outline></glyph>").unwrap();
+    std::fs::write(gl.join("space.glif"), "<?xml version=\"1.0\" encoding=\"UTF-8\"?>\n<glyph name=\"space\" format=\"2\"><advance width=\"250\"/><unicode hex=\"0020\"/></glyph>").unwrap();
+    std::fs::write(gl.join("nbspace.glif"), "<?xml version=\"1.0\" encoding=\"UTF-8\"?>\n<glyph name=\"nbspace\" format=\"2\"><advance width=\"250\"/><unicode hex=\"00A0\"/><outline><component base=\"space\"/></outline></glyph>").unwrap();
+    match crate::e2e::build::compile(&ufo, &Default::default()) {
+        Err(e) => println!("probe: build failed: {e}"),
+        Ok(bytes) => {
+            let f = FontRef::new(&bytes).unwrap();
+            let (hd, hh, mx) = (f.head().unwrap(), f.hhea().unwrap(), f.maxp().unwrap());
+            println!("probe: numGlyphs={} head=({} {} {} {}) hhea advMax={} minLsb={} minRsb={} xMaxExtent={} nhm={}",
+                mx.num_glyphs(), hd.x_min(), hd.y_min(), hd.x_max(), hd.y_max(), hh.advance_width_max().to_u16(),
+                hh.min_left_side_bearing().to_i16(), hh.min_right_side_bearing().to_i16(), hh.x_max_extent().to_i16(),
+                hh.number_of_h_metrics());
+            let glyf = f.glyf().unwrap();
+            let loca = f.loca(None).unwrap();
+            for g in 0..mx.num_glyphs() {
+                let gl = loca.get_glyf(write_fonts::types::GlyphId::new(g as u32), &glyf).unwrap();
+                match gl {
+                    None => println!("  gid {g}: empty"),
+                    Some(gl) => println!("  gid {g}: contours={} bbox=({} {} {} {})", gl.number_of_contours(), gl.x_min(), gl.y_min(), gl.x_max(), gl.y_max()),
+                }
+            }
+        }
+    }
+}
+
 pub fn run_directed(args: &Args) {
+    if args.rest.iter().any(|a| a == "probe") {
+        probe_empty_composite();
+        return;
+    }
     crate::run_cases("c17x", args, move |i| {
         if std::env::var("C17_DEBUG").is_ok() {
             std::panic::set_hook(Box::new(|info| eprintln!("{info}")));
